@@ -103,7 +103,16 @@ pub fn run(p: &Prog, cfg: &Cfg, rep: &mut Report) {
             }
             // raw payload byte for byte
             let payload_bytes = unb64(sub["payload"].as_str().unwrap_or(""));
-            if typed_n == 0 && payload_bytes != unb64(payload_args[0].as_str().unwrap_or("")) {
+            // (a name whose two methods mark the payload differently -- typed `Binary` / raw -- has no
+            // single declared encoding: only the delivered value is checked for it, below)
+            let mixed_markers = match (method_of(&methods, &row.ok), method_of(&methods, &row.err)) {
+                (Some(a), Some(b)) => std::mem::discriminant(&a.spec.payload) != std::mem::discriminant(&b.spec.payload),
+                _ => false,
+            };
+            if mixed_markers {
+                tally.class("payload:mixed-markers");
+            }
+            if typed_n == 0 && !mixed_markers && payload_bytes != unb64(payload_args[0].as_str().unwrap_or("")) {
                 return Err(viol("payload-raw", "raw payload is not carried byte for byte", json!({"handler": row.name})));
             }
             // dispatching the eventual reply delivers equal payload values
